@@ -30,7 +30,8 @@ impl fmt::Debug for TokenLocation {
     fn fmt(&self, f: &mut fmt::Formatter<'_>) -> fmt::Result {
         writeln!(f, "{}:{}:{}", self.filename, self.line + 1, self.col + 1)?;
         writeln!(f, "{}", self.whole_line)?;
-        write!(f, "{:->1$}", '^', self.col + 1)
+        // (not a `{:->1$}` width: the formatting machinery limits a run-time width to 16 bits)
+        write!(f, "{}^", "-".repeat(self.col))
     }
 }
 
